@@ -36,7 +36,7 @@ struct IniGen {
     std::map<std::string, std::string> cur;                       // value in effect per full name
     std::vector<std::string> names;                               // defined full names, in order
     std::string section;
-    int nrefs = 0, nsections = 0, nnested = 0, nenv = 0, nundef = 0;
+    int nrefs = 0, nsections = 0, nnested = 0, nenv = 0, nundef = 0, nmany = 0, manyctr = 0;
     bool has_undef = false;                                       // the value being generated contains an undefined reference
     std::map<size_t, std::string> alt;                            // entry index -> the other acceptable value (undefined references dropped)
     IniGen(Src &s_, char sep_) : s(s_), sep(sep_) {}
@@ -77,7 +77,16 @@ struct IniGen {
         std::string doc;
         int n = (int)s.range(0, maxlines);
         for (int i = 0; i < n && !s.exhausted(); i++) {
-            int k = (int)s.pick({2, 2, allow_sections ? 3 : 0, 12, 2, names.empty() ? 0 : 2});
+            int k = (int)s.pick({2, 2, allow_sections ? 3 : 0, 12, 2, names.empty() ? 0 : 2, 1});
+            if (k == 6) {
+                // one value made of many distinct references (more than any small fixed number of expansion rounds)
+                int nk = (int)s.range(20, 70); std::vector<std::string> made;
+                for (int q = 0; q < nk; q++) { std::string key = "m" + std::to_string(manyctr++); std::string v = text_piece(); v = trim(v); if (v.find('$') != std::string::npos) v = "x"; doc += key + std::string(1, sep) + v + "\n"; define(section.empty() ? key : section + "." + key, v); made.push_back(section.empty() ? key : section + "." + key); }
+                std::string src, val; for (auto &nm : made) { src += "${" + nm + "}" + (s.boolean() ? "," : ""); val += cur[nm] + (src.back() == ',' ? "," : ""); }
+                std::string key = "all" + std::to_string(manyctr++);
+                doc += key + std::string(1, sep) + src + "\n"; define(section.empty() ? key : section + "." + key, trim(val)); nrefs += nk; nmany++;
+                continue;
+            }
             if (k == 0) doc += pad(s) + "\n";
             else if (k == 1) doc += pad(s) + "#" + text_piece() + "${x} = y\n";
             else if (k == 2) {
@@ -159,6 +168,7 @@ Job gen_ini(Src &s, Ctx &c, bool *nontriv) {
     std::vector<std::pair<std::string, std::string>> expect = g.expect;
     std::map<size_t, std::string> alt = g.alt;
     if (g.nundef) c.tag("ini_with_undefined_reference");
+    if (g.nmany) c.tag("ini_with_a_value_of_20_to_70_distinct_references");
     return [usefile, mainpath, doc, sep, expect, alt](Ctx &c) {
         qlisttbl_t *t;
         if (usefile) t = qconfig_parse_file(nullptr, mainpath.c_str(), sep);
